@@ -133,7 +133,7 @@ func runCase(r *vf.Run, c c9case) (o outcome) {
 		}
 		return f
 	}
-	hangFeat := feat("addpath", c.AddPath)
+	hangFeat := vf.F("mode", c.Mode, "addpath", c.AddPath)
 	obs, g, hung, st := rig.RunGuarded(hg, fmt.Sprint(hangFeat), func() (obs []rig.Attr) {
 		rg := rig.New(l, true)
 		var out *rig.Out
